@@ -7,18 +7,20 @@ reads   <REPO>/duke/src/class_constants.rs   (mod attribute, mod type_annotation
                                               read_element_values_named, read_verification_type_info, the TargetInfoRead impls,
                                               read_type_reference_code)
         <REPO>/duke/src/tree/{class,method,module}.rs   (the flag struct a `flags` field has)
+        <REPO>/duke/src/class_reader/pool.rs (the arms of PoolEntry::as_method_handle; PoolRead::read and the narrowing accessors are pinned)
 writes  <COQ>/C01/Formats.v                  (REPO, COQ: lib/vcheck.py)
 
 Generated:
   a_<Name> : str                       every attribute name constant
   max_ev_nesting, ev_consts, ev_*_tag  the element_value arms (both readers must have the same arms)
-  vti_plain, vti_object_tag, vti_uninit_tag
+  vti_plain, vti_object_tag, vti_uninit_tag, vti_ctor_tbl (tag -> VerificationTypeInfo variant built)
+  handle_tbl                           reference_kind -> Handle variant, accessor of reference_index (as_method_handle)
   target_{class,field,method,code}_tbl target_type -> fields read, per context
   f_<Attribute> : fmt                  the layout of every attribute read with read_vec / struct literals / a `let` sequence,
                                        f_Module from read_module, f_exception_table from read_code
 Every reader expression is translated by a small recursive-descent translator over the expression
 forms listed in `expr`; anything else is an error (fail closed).  The functions whose layout is
-written by hand in coq/C01/ClassFile.v (stack map frames, type_path, the annotation and type
+written by hand in coq/C01/ClassFile.v (stack map frames of StackMapTable and of the CLDC StackMap attribute, type_path, the annotation and type
 annotation attribute loops, the record component header, the Code header, the class / member
 skeleton, PoolRead::read) are PINNED: their text (comments and white space removed) is hashed and
 compared with the hash recorded here, so an edit of any of them fails the check until the model
@@ -59,6 +61,7 @@ PINS = {
     "read.skeleton": "600731ae46803a6a",
     "read_code.header": "34fac866b809d2af",
     "read_code.StackMapTable": "20e2a174008c4ebe",
+    "read_code.StackMap": "8cfc5fa7650fd4ef",
     "read_code.LineNumberTable": "1b3547d20c982eb1",
     "read_code.LocalVariableTable": "4f417a4568e85e48",
     "read_code.LocalVariableTypeTable": "de759398105f18f9",
@@ -315,7 +318,7 @@ def pinned_texts(cr, cls_body, arms):
         j = matching(outside, i + len("MATCHOP"))
         outside = outside[:i] + "OPCODES" + outside[j + 1:]
     t["read_code.header"] = outside
-    for key, const in (("read_code.StackMapTable", "STACK_MAP_TABLE"), ("read_code.LineNumberTable", "LINE_NUMBER_TABLE"),
+    for key, const in (("read_code.StackMapTable", "STACK_MAP_TABLE"), ("read_code.StackMap", "STACK_MAP"), ("read_code.LineNumberTable", "LINE_NUMBER_TABLE"),
                        ("read_code.LocalVariableTable", "LOCAL_VARIABLE_TABLE"), ("read_code.LocalVariableTypeTable", "LOCAL_VARIABLE_TYPE_TABLE")):
         t[key] = arms["code"][const]
     pool = strip_comments(open(os.path.join(vcheck.REPO, "duke/src/class_reader/pool.rs")).read())
@@ -388,14 +391,18 @@ def generate():
     body = fn_body(cr, r"\bfn\s+read_verification_type_info\s*\(", "read_verification_type_info")
     m = re.search(r"match\s+reader\.read_u8\(\)\?\s*\{", body)
     plain, obj, uninit = [], None, None
+    vti_ctor = []       # (tag, name of the VerificationTypeInfo variant the arm builds)
     for pat, arm in split_arms(body[m.end():matching(body, m.end() - 1)]):
         p, a = squash(pat), squash(arm)
         if re.match(r"^\d+$", p) and re.match(r"^VerificationTypeInfo::[A-Za-z]+$", a):
             plain.append(int(p))
+            vti_ctor.append((int(p), a.split("::")[1]))
         elif re.match(r"^\d+$", p) and a == "{letclass=pool.get_class(reader.read_u16()?)?;VerificationTypeInfo::Object(class)}":
             obj = int(p)
+            vti_ctor.append((int(p), "Object"))
         elif re.match(r"^\d+$", p) and a == "{letlabel=labels.get_or_create(reader.read_u16()?)?;VerificationTypeInfo::Uninitialized(label)}":
             uninit = int(p)
+            vti_ctor.append((int(p), "Uninitialized"))
         elif p == "tag" and a.startswith("bail!("):
             pass
         else:
@@ -403,7 +410,41 @@ def generate():
     if obj is None or uninit is None:
         raise Bad("read_verification_type_info: Object / Uninitialized arm missing")
     L += ["(* ---- verification_type_info ---- *)", "Definition vti_plain : list N := [%s]." % "; ".join(map(str, plain)),
-          "Definition vti_object_tag : N := %d." % obj, "Definition vti_uninit_tag : N := %d." % uninit, ""]
+          "Definition vti_object_tag : N := %d." % obj, "Definition vti_uninit_tag : N := %d." % uninit,
+          "(* tag -> the VerificationTypeInfo variant the arm of read_verification_type_info builds: %s *)" % ", ".join("%d %s" % tn for tn in vti_ctor),
+          "Definition vti_ctor_tbl : list (N * str) := [%s]." % "; ".join("(%d, %s)" % (t, gstr(n)) for t, n in vti_ctor), ""]
+    # method handles: reference_kind -> Handle variant, pool accessor of the reference
+    # (1 get_field_ref, 2 get_method_ref, 3 get_method_ref_or_interface_method_ref, 4 get_interface_method_ref: numbering of Pool.resolve_kind)
+    pool_src = strip_comments(open(os.path.join(vcheck.REPO, "duke/src/class_reader/pool.rs")).read())
+    hconst = mod_consts(cc, "method_handle_reference")
+    hb = fn_body(pool_src, r"\bfn\s+as_method_handle\s*\(", "as_method_handle")
+    m = re.search(r"let\s+handle\s*=\s*match\s+reference_kind\s*\{", hb)
+    if not m:
+        raise Bad("as_method_handle: match on reference_kind not found")
+    HACC = {"get_field_ref": 1, "get_method_ref": 2, "get_interface_method_ref": 4}
+    handle_tbl = []
+    for pat, arm in split_arms(hb[m.end():matching(hb, m.end() - 1)]):
+        p, a = squash(pat), squash(arm)
+        mm = re.match(r"^method_handle_reference::([A-Z_]+)$", p)
+        if mm:
+            if mm.group(1) not in hconst:
+                raise Bad("as_method_handle: unknown constant %s" % mm.group(1))
+            k = hconst[mm.group(1)]
+            m1 = re.match(r"^Handle::([A-Za-z]+)\(pool\.(get_[a-z_]+)\(reference_index\)\?\)$", a)
+            m2 = re.match(r"^\{let\(method_ref,is_interface\)=pool\.get_method_ref_or_interface_method_ref\(reference_index\)\?;Handle::([A-Za-z]+)\(method_ref,is_interface\)\}$", a)
+            if m1 and m1.group(2) in HACC:
+                handle_tbl.append((k, m1.group(1), HACC[m1.group(2)]))
+            elif m2:
+                handle_tbl.append((k, m2.group(1), 3))
+            else:
+                raise Bad("as_method_handle: arm of %s not understood" % mm.group(1))
+        elif p == "tag" and a.startswith("bail!("):
+            pass
+        else:
+            raise Bad("as_method_handle: arm %s not understood" % p)
+    L += ["(* ---- MethodHandle: reference_kind, the Handle variant built, the accessor of reference_index ---- *)",
+          "(* %s *)" % ", ".join("%d %s" % (k, n) for k, n, _ in handle_tbl),
+          "Definition handle_tbl : list (N * str * N) := [%s]." % "; ".join("(%d, %s, %d)" % (k, gstr(n), a) for k, n, a in handle_tbl), ""]
     # targets
     tconst = mod_consts(cc, "type_annotation")
     L.append("(* ---- target_info per context: target_type, fields read (0 u8, 1 u16, 2 u16 offset -> label, 3 localvar table) ---- *)")
